@@ -7,6 +7,7 @@ import (
 	"io"
 	"net/http"
 	"runtime/debug"
+	"strconv"
 	"strings"
 	"sync"
 	"time"
@@ -53,6 +54,11 @@ type rtCall struct {
 type served struct {
 	NetErr bool // RoundTrip returns an error, no response
 	Stall  bool // no answer at all: RoundTrip blocks until the request's context is done
+	// Declared, when HasDeclared, is the length the response declares (http.Response.ContentLength and,
+	// unless the header map already carries one, the Content-Length header) - independent of what the
+	// body then delivers. -1 = unknown (chunked).
+	Declared    int64
+	HasDeclared bool
 	// CloseErr: the body reads completely, then Close fails (a connection torn down after the last byte)
 	CloseErr bool
 	// Parsable (C13): a 200 whose body parses as JSON of the response structure but is not the plain correct answer
@@ -98,6 +104,9 @@ func (o *served) String() string {
 	}
 	if o.CloseErr {
 		s += " close-error"
+	}
+	if o.HasDeclared {
+		s += fmt.Sprintf(" declared-length=%d", o.Declared)
 	}
 	if v := o.Header.Get("Retry-After"); v != "" {
 		s += fmt.Sprintf(" retry-after=%q", v)
@@ -249,6 +258,13 @@ func (t *transport) RoundTrip(req *http.Request) (*http.Response, error) {
 	if h == nil {
 		h = http.Header{}
 	}
+	declared := int64(len(o.Body))
+	if o.HasDeclared {
+		declared = o.Declared
+	}
+	if declared >= 0 && h.Get("Content-Length") == "" {
+		h.Set("Content-Length", strconv.FormatInt(declared, 10)) // as a real transport leaves it
+	}
 	return &http.Response{
 		Status:        fmt.Sprintf("%d %s", o.Status, http.StatusText(o.Status)),
 		StatusCode:    o.Status,
@@ -257,7 +273,7 @@ func (t *transport) RoundTrip(req *http.Request) (*http.Response, error) {
 		ProtoMinor:    1,
 		Header:        h,
 		Body:          br,
-		ContentLength: int64(len(o.Body)),
+		ContentLength: declared,
 		Request:       req,
 	}, nil
 }
